@@ -158,12 +158,14 @@ def histCase (id : String) (items : List Sexp) : String :=
         match e with
         | .sleep => acc
         | .ev ev _ =>
-          let s' := step env acc.1 ev
+          let s' := step false env acc.1 ev
           (s', acc.2.1 ++ [obsOf acc.1 s' ev], if publishes s' acc.1 ev then (i : Int) else acc.2.2))
       (State.init, [], -1)
     let stale := staleVersion s
     let conv := if stale then freshEq else true
     let astOf := fun (v : Option Nat) => (v.bind (fun v => (env.parse v).registered)).getD []
+    -- with the repaired `change_kind` a history that ends with a save is never stale (`C29_converge_full`); the classes of the two fixed
+    -- findings are still computed so that a regression is reported under its name
     let ink := if !stale then "-" else if equiv (astOf s.publishedOf) (astOf s.text) then "C29-nochange-stale-positions" else "C29-quickcheck-stale-content"
     let model := if auto then "(auto) (converged true)"
       else showList "trace" trace ++ " (lastpub " ++ toString lastpub ++ ") (converged " ++ toString conv ++ ")"
